@@ -16,6 +16,7 @@ pub enum Arr2DError {
     InconsistentRowLengths,
     NonSquareMatrix,
     SingularMatrix,
+    NoConvergence,
     InvalidReshape {
         size: usize,
         new_height: usize,
